@@ -12,6 +12,12 @@ CLAIMS = {
    note="Trusted: Numba after type inference/LLVM, the primitive table skv/sem.py (cross-checked concretely against the real functions every run), z3, the transcription of the reference algorithms in skv/spec/hashes.py (validated on 38 reference vectors each run), little-endian host, murmur3 len < 2^31. The run-time comparison on random inputs is a bounded stand-in and not counted as proof.",
    technique="contract-based deductive verification: typed-IR VC generation + z3 (bit-vectors), sidecar contracts",
    ref="DESIGN.md 4 (C11), 1.1"),
+ "C02": dict(
+   level=PROOF,
+   text="HyperLogLog kernels (_n_leading_zeros64, _add, _add_ngram, _merge, plus fasthash64) are verified from Numba's typed IR against exact register-level contracts for all p in 7..16, all seeds, all keys (bit-vector VCs, loop invariants); a code-independent lemma layer proves from those contract clauses that add is idempotent/commutative, merge is commutative/associative/idempotent and distributes over add, and that the representation invariant 'register i = max rank over the key set' is established, preserved by add/merge/ngram-fold and determines the registers uniquely - hence (induction over histories) the state depends only on the set of distinct keys.",
+   note="Trusted: Numba after type inference/LLVM, primitive table (cross-checked each run), z3, induction over histories as a meta-theorem, no aliasing of merge operands. Class-method glue obligations are listed in the evidence when front end B covers them. Run-time comparison with the executable register semantics is a bounded stand-in, not counted as proof.",
+   technique="contract-based deductive verification: typed-IR VC generation + z3 (bit-vectors) + lemma layer over contract clauses",
+   ref="DESIGN.md 4 (C02)"),
 }
 NOT_YET = "check not built yet (construction in progress; see DESIGN.md section 7)"
 
